@@ -18,8 +18,8 @@ META = {
 }
 
 # panic locations that belong to answer construction / application / canonicalization
-ANSWER_LAYER = re.compile(r"(chalk-solve/src/infer/|chalk-solve/src/infer\.rs|chalk-engine/src/slg/resolvent\.rs|chalk-engine/src/slg/aggregate\.rs|chalk-engine/src/slg\.rs|"
-                          r"chalk-ir/src/lib\.rs|chalk-ir/src/fold/subst\.rs|chalk-recursive/src/fulfill\.rs|chalk-solve/src/solve\.rs|chalk-solve/src/ext\.rs|chalk-engine/src/logic\.rs)")
+ANSWER_LAYER = re.compile(r"(chalk-solve/src/infer/|chalk-solve/src/infer\.rs|chalk-engine/src/slg/resolvent\.rs|chalk-engine/src/slg/aggregate\.rs|"
+                          r"chalk-ir/src/lib\.rs|chalk-ir/src/fold/subst\.rs)")
 
 
 # ---------------------------------------------------------------------------------------------
